@@ -148,26 +148,26 @@ type vDispatchRec struct {
 
 var vRec vDispatchRec
 
-//verif:replace connectrpc.com/conformance/internal/app/referenceclient.examineConnectError vModelExamineConnectError
+// (replaces examineConnectError for H13e only; see the harness registry)
 func vModelExamineConnectError(errJSON json.RawMessage, printer internal.Printer) {
 	vRec.connErr++
 	vRec.connErrBody = string(errJSON)
 }
 
-//verif:replace connectrpc.com/conformance/internal/app/referenceclient.examineConnectEndStream vModelExamineConnectEndStream
+// (replaces examineConnectEndStream for H13e only; see the harness registry)
 func vModelExamineConnectEndStream(endStreamJSON json.RawMessage, printer internal.Printer) {
 	vRec.connEnd++
 	vRec.connEndBody = string(endStreamJSON)
 }
 
-//verif:replace connectrpc.com/conformance/internal/app/referenceclient.examineGRPCEndStream vModelExamineGRPCEndStream
+// (replaces examineGRPCEndStream for H13e only; see the harness registry)
 func vModelExamineGRPCEndStream(endStream string, printer internal.Printer) http.Header {
 	vRec.grpcEnd++
 	vRec.grpcEndBody = endStream
 	return http.Header{"From-End-Stream": []string{"1"}}
 }
 
-//verif:replace connectrpc.com/conformance/internal/app/referenceclient.checkGRPCStatus vModelCheckGRPCStatus
+// (replaces checkGRPCStatus for H13e only; see the harness registry)
 func vModelCheckGRPCStatus(headers http.Header, printer internal.Printer) {
 	vRec.status++
 	switch {
